@@ -216,35 +216,20 @@ impl Directive {
                     _ => SegmentType::Code,
                 };
 
-                // an `.org` of this segment type that has not seen an item yet (`.org 4` / `.dseg` /
-                // ... / `.cseg`) still says where the next item of this type goes
-                let pending_origin = context
-                    .segments
-                    .borrow()
-                    .iter()
-                    .rev()
-                    .find(|segment| segment.borrow().t == new_type)
-                    .map(|segment| {
-                        let segment = segment.borrow();
-                        if segment.is_empty() {
-                            segment.address
-                        } else {
-                            0
-                        }
-                    })
-                    .unwrap_or(0);
                 let (last_is_empty, last_address) = {
                     let last_segment = context.last_segment().unwrap();
                     let last_segment = last_segment.borrow();
                     (last_segment.is_empty(), last_segment.address)
                 };
+                // an `.org` that has not seen an item yet (`.org 4` / `.dseg` / ... / `.cseg`) still
+                // says where the next item of its segment type goes: its segment is kept, pass 0
+                // hands the origin on
                 if !last_is_empty || last_address != 0 {
                     context.add_segment(Segment::new(new_type));
                 } else {
                     // reuse the still empty segment
                     context.last_segment().unwrap().borrow_mut().t = new_type;
                 }
-                context.last_segment().unwrap().borrow_mut().address = pending_origin;
             }
             Directive::Device => {
                 if let DirectiveOps::OpList(values) = opts {
